@@ -35,6 +35,7 @@ type c18Config struct {
 	HTTP     bool         `json:"http,omitempty"`
 	Hist     []c18Hist    `json:"hist,omitempty"`
 	ViaAPI   bool         `json:"via_api,omitempty"`
+	Cron     bool         `json:"cron,omitempty"` // the cron clean-up ran between the registrations and the first polls (must remove nothing that recent)
 }
 
 var (
@@ -130,6 +131,9 @@ func c18Expect(cfg *c18Config, user, path string) (allowed map[string]bool, allo
 	if nl > 2 {
 		nl = 2
 	}
+	if cfg.Cron {
+		defer func() { class += "|cron-before-first-poll" }()
+	}
 	class = fmt.Sprintf("n%d|%s|cands%d|len%d|tie%d|%s|sharedLonger:%v|notPolledButAnswered:%v", len(cfg.Backends), src, min(len(cands), 3), max, nl, liveness, sharedToo, recentAnswer)
 	return allowed, allow404, class
 }
@@ -137,6 +141,9 @@ func c18Expect(cfg *c18Config, user, path string) (allowed map[string]bool, allo
 // c18Why names what is wrong with answer got.
 func c18Why(cfg *c18Config, user, path, got string) string {
 	if got == "!" {
+		if cfg.Cron {
+			return "404-despite-live-match:cron-clean-up-ran-before-the-first-poll"
+		}
 		if allowed, _, _ := c18Expect(cfg, user, path); len(allowed) > 0 {
 			for i := range cfg.Backends {
 				if allowed[cfg.Backends[i].ID] && cfg.Backends[i].Repolled != "" {
@@ -320,6 +327,9 @@ func c18Generate(r *core.Run) []c18Config {
 					add([]c18Backend{{EndUser: eu, Prefixes: []string{p}, Seen: s, Active: a}}, 1)
 				}
 			}
+			// the cron clean-up runs after registration and before the agent's first poll
+			add([]c18Backend{{EndUser: eu, Prefixes: []string{p}, Seen: "fresh"}}, 1)
+			cfgs[len(cfgs)-1].Cron = true
 			// registered for another agent account since its (former) agent last polled; the former agent polls on
 			if len(p) <= 3 {
 				add([]c18Backend{{EndUser: eu, Prefixes: []string{p}, Seen: "never", Usurped: true}}, 1)
@@ -389,6 +399,9 @@ func c18Generate(r *core.Run) []c18Config {
 	// administrator does it: POST /api/backends (the rest through the store interface)
 	for i := range cfgs {
 		cfgs[i].ViaAPI = rng.Intn(3) == 0
+		if len(cfgs[i].Backends) <= 8 && rng.Intn(5) == 0 {
+			cfgs[i].Cron = true
+		}
 	}
 	defer func() {
 		for i := range cfgs {
@@ -440,7 +453,7 @@ func c18Generate(r *core.Run) []c18Config {
 
 // C18 — routing to the most specific live backend.
 func C18(r *core.Run) {
-	r.SetRule("bounded-exhaustive comparison of LookupBackend (real caching+persistent store over a fake datastore/memcache) with an independent longest-prefix specification: 1-4 backends, prefix lists (1-3, duplicates) over {/, /a, /a/, /a/b, /ab, /b, \"\", /données/, \"/a b/\", /50%/}, endUser in {u1 (a mixed-case address, upper-case domain), u2, allUsers}, a third of the configurations (and every one sent through the client handler) registered through POST /api/backends instead of the store interface, last poll in {fresh,4m,6m,1h,never} x last posted response in {none,fresh,4m,6m} (dated independently; posted through the real store), backends with an earlier life under the same ID (registered, polled, answered, deleted, registered again = never polled), backends registered again for another agent account while only the former agent keeps polling (through /agent/pending; must be turned away and must not keep the backend live), one configuration with 520 private backends of one user and 510 shared ones (most specific matches late in key order), backends registered, polled and registered again within seconds (directly or after a delete) before their present poll, users {u1,u2,u3} x 12 paths (including non-ASCII, space, percent and one that arrives with an encoded slash, %2F; the request path is the decoded one), every/many insertion orders, each lookup repeated; sample through the client HTTP handler (also paths that look like platform / API / agent endpoints - /_ah/warmup, /_ah, /_ahx, /apix/..., /agents/..., /cron/... - and every request repeated with the handler's 1st or 2nd datastore query failing: an error answer is admissible then, a backend the specification does not select is not), including three-step histories (a cacheable GET answered by the one admissible backend; that backend deleted / its last poll aged past the window / registered for another end user; the same GET again); class = (#backends, candidate source user/shared/none, #candidates, longest match length, tie size, liveness of the longest class, more specific shared backend present)")
+	r.SetRule("bounded-exhaustive comparison of LookupBackend (real caching+persistent store over a fake datastore/memcache) with an independent longest-prefix specification: 1-4 backends, prefix lists (1-3, duplicates) over {/, /a, /a/, /a/b, /ab, /b, \"\", /données/, \"/a b/\", /50%/}, endUser in {u1 (a mixed-case address, upper-case domain), u2, allUsers}, a third of the configurations (and every one sent through the client handler) registered through POST /api/backends instead of the store interface, last poll in {fresh,4m,6m,1h,never} x last posted response in {none,fresh,4m,6m} (dated independently; posted through the real store), backends with an earlier life under the same ID (registered, polled, answered, deleted, registered again = never polled), backends registered again for another agent account while only the former agent keeps polling (through /agent/pending; must be turned away and must not keep the backend live), the cron clean-up (/cron/delete) run between the registrations and the first polls in a fifth of the configurations (nothing that recent may be removed), one configuration with 520 private backends of one user and 510 shared ones (most specific matches late in key order), backends registered, polled and registered again within seconds (directly or after a delete) before their present poll, users {u1,u2,u3} x 12 paths (including non-ASCII, space, percent and one that arrives with an encoded slash, %2F; the request path is the decoded one), every/many insertion orders, each lookup repeated; sample through the client HTTP handler (also paths that look like platform / API / agent endpoints - /_ah/warmup, /_ah, /_ahx, /apix/..., /agents/..., /cron/... - and every request repeated with the handler's 1st or 2nd datastore query failing: an error answer is admissible then, a backend the specification does not select is not), including three-step histories (a cacheable GET answered by the one admissible backend; that backend deleted / its last poll aged past the window / registered for another end user; the same GET again); class = (#backends, candidate source user/shared/none, #candidates, longest match length, tie size, liveness of the longest class, more specific shared backend present)")
 	r.Assume("ties and a non-live member of the longest-prefix class admit 404 or any live member; liveness margins are >= 60 s from the 5-minute boundary; 'never seen' is the state right after registration; a backend is live iff its agent listed pending requests within the window - a posted response never counts; a request answered without being queued for any backend (GET cache replay) is admissible only where some backend is admissible for that user and path; last-seen ages are produced by ageing the time-valued properties written when the backend's pending list is read")
 	bin := r.MustBuild(e3Build(r))
 	cfgs := c18Generate(r)
